@@ -370,6 +370,16 @@ fn case<G: CurveTag>(bytes: &[u8], col: &mut Collector, large: bool, wide: bool)
             col.class("batch:rejected-proof-alone");
         }
         if r.accept() == Some(true) {
+            // what the relations accept is accepted in a batch as well (alone and twice over)
+            let one = BatchMember { prog: &prog, commitments: &p.commitments, proof: &real_proof };
+            let two = BatchMember { prog: &prog, commitments: &p.commitments, proof: &real_proof };
+            for (name, members) in [("alone", vec![one]), ("twice", vec![BatchMember { prog: &prog, commitments: &p.commitments, proof: &real_proof }, two])] {
+                let (rb, pn) = run_batch::<G>(&members, 256, 7);
+                if pn.is_none() && !matches!(rb, Some(Ok(()))) {
+                    return Err(Failure::new("C03:accept:batch-rejects", format!("the relations accept the proof but batch_verify ({}) gives {:?} ({})", name, rb, label), what()));
+                }
+            }
+            col.class("batch:accepted-proof");
             let d: Fr<G> = ScalarSpec::gen_nonzero(&mut chi).to_f();
             let (mut mp, mut mm) = (mirror.clone(), mirror.clone());
             mp.ipp.a += d;
